@@ -387,6 +387,16 @@ def rule_loops(s, loops):
             if t == 'do':
                 loopsites.append((t, i))
                 j = i + 1
+                while toks[j][0] in ('__CPROVER_assigns', '__CPROVER_loop_invariant', '__CPROVER_decreases'):
+                    j += 1
+                    d = 0
+                    while True:
+                        if toks[j][0] == '(': d += 1
+                        elif toks[j][0] == ')':
+                            d -= 1
+                            if d == 0: break
+                        j += 1
+                    j += 1
                 if toks[j][0] != '{':
                     raise ExtractionError('do without braces in %s' % name)
                 d = 0
